@@ -74,14 +74,14 @@ Definition skipped_dir (c : cfg) (t : node) (q : path) : bool :=
 Definition reached (c : cfg) (t : node) (q : path) : bool :=
   forallb (fun a => negb (skipped_dir c t a)) (proper_prefixes q).
 
-Definition kind_admitted (c : cfg) (k : kind) : bool :=
+Definition kind_accepted (c : cfg) (k : kind) : bool :=
   match k with Reg => true | Sym => c_symlinks c | Special => false end.
 
 Definition size_ok (c : cfg) (size : Z) : bool := (c_max_size c <=? 0)%Z || (size <=? c_max_size c)%Z.
 
 Definition wanted (c : cfg) (t : node) (e : ext) (f : path * kind * Z) : bool :=
   let '(q, k, size) := f in
-  reached c t q && kind_admitted c k && negb (gitignored c t q false)
+  reached c t q && kind_accepted c k && negb (gitignored c t q false)
   && c_required c e (mpath q) && size_ok c size.
 
 (* the Extract calls a whole-tree scan of t has to make: files in listing order, extractors in
@@ -89,6 +89,51 @@ Definition wanted (c : cfg) (t : node) (e : ext) (f : path * kind * Z) : bool :=
 Definition expected_calls (c : cfg) (t : node) : list (ext * path) :=
   flat_map (fun f => map (fun e => (e, mpath (fst (fst f)))) (filter (fun e => wanted c t e f) (c_exts c)))
            (files_of [] t).
+
+(* ------------------------------------------------------------------ explicitly requested paths *)
+(* ancestors of q' at or below q: the part of the tree a walk started at q traverses before reaching q' *)
+Definition prefixes_between (q q' : path) : list path :=
+  filter (fun a => (length q <=? length a)%nat) (proper_prefixes q').
+
+Definition reached_from (c : cfg) (t : node) (q q' : path) : bool :=
+  forallb (fun a => negb (skipped_dir c t a)) (prefixes_between q q').
+
+Definition wanted_from (c : cfg) (t : node) (q : path) (e : ext) (f : path * kind * Z) : bool :=
+  let '(q', k, size) := f in
+  reached_from c t q q' && kind_accepted c k && negb (gitignored c t q' false)
+  && c_required c e (mpath q') && size_ok c size.
+
+(* the calls owed for the sub-tree nd found at q *)
+Definition expected_from (c : cfg) (t : node) (q : path) (nd : node) : list (ext * path) :=
+  flat_map (fun f => map (fun e => (e, mpath (fst (fst f)))) (filter (fun e => wanted_from c t q e f) (c_exts c)))
+           (files_of q nd).
+
+Definition spath (p : path) : path := if ln_eqb p [DOT] then [] else p.
+
+(* one requested path: a directory is scanned like the whole tree would scan it; a file is dispatched to
+   the extractors that require it (kind and size limit permitting), whatever rules apply to its ancestors *)
+Definition expected_for_path (c : cfg) (t : node) (p : path) : list (ext * path) :=
+  match lookup_from t (spath p) with
+  | None => []
+  | Some (Dir n ch df) => expected_from c t (spath p) (Dir n ch df)
+  | Some (File _ k size _ _) =>
+      if kind_accepted c k && size_ok c size
+      then map (fun e => (e, p)) (filter (fun e => c_required c e p) (c_exts c)) else []
+  end.
+
+Definition expected_paths (c : cfg) (t : node) : list (ext * path) :=
+  flat_map (expected_for_path c t) (c_paths c).
+
+(* the same configuration as a whole-tree scan *)
+Definition whole_tree (c : cfg) : cfg := {|
+  c_exts := c_exts c; c_required := c_required c; c_extract := c_extract c; c_pat := c_pat c;
+  c_skip_list := c_skip_list c; c_re := c_re c; c_glob := c_glob c; c_gitignore := c_gitignore c;
+  c_ignore_subdirs := false; c_paths := []; c_symlinks := c_symlinks c;
+  c_max_inodes := c_max_inodes c; c_max_size := c_max_size c; c_fatal := c_fatal c; c_cancel := c_cancel c |}.
+
+(* clean relative paths: "." alone, or segments none of which is "." *)
+Definition canonical_path (p : path) : bool :=
+  ln_eqb p [DOT] || (negb (match p with [] => true | _ => false end) && forallb (fun s => negb (N.eqb s DOT)) p).
 
 (* what the calls return, attributed *)
 Definition pkgs_of (x : xres) : list pkg := match x with XRes pk _ => pk | XPanic => [] end.
